@@ -307,7 +307,7 @@ package ssh
 // computed over sequence number || packet, compared equal; declared lengths
 // above maxPacket and packets shorter than their padding are refused.
 //@ func (*streamPacketCipher).readCipherPacket
-//@ props C26
+//@ props C25 C26
 //@ requires s.cipher != nil
 //@ requires ref(s.packetData) != ref(s.macResult) || cap(s.packetData) == 0
 //@ modifies heap
@@ -316,18 +316,21 @@ package ssh
 //@ check_at "s.macResult = s.mac.Sum(s.macResult[:0])" ghost(s.mac, hlen) == 4 + 4 + length
 //@ check_at "s.macResult = s.mac.Sum(s.macResult[:0])" ghost(s.mac, hbuf)[0] == seqNum / 16777216 && ghost(s.mac, hbuf)[1] == (seqNum / 65536) % 256 && ghost(s.mac, hbuf)[2] == (seqNum / 256) % 256 && ghost(s.mac, hbuf)[3] == seqNum % 256
 //@ check_at "return s.packetData[:length-paddingLength-1], nil" implies(s.mac != nil, len(mac) == len(s.macResult) && forall(i, 0, len(mac), s.macResult[i] == mac[i]))
+// ... and the MAC it was compared with is the one that was received: those bytes are as io.ReadFull left them
+//@ mark RECV "mac := s.packetData[length-1:]"
+//@ check_at "return s.packetData[:length-paddingLength-1], nil" implies(s.mac != nil, forall(i, 0, len(mac), mac[i] == at(RECV, s.packetData[length - 1 + i])))
 //@ canary ensures result1 != nil
 
 // AES-GCM packets (RFC 5647 as used by OpenSSH): refuses declared lengths above
 // maxPacket, empty packets and padding that does not fit; never indexes out of range.
 //@ func (*gcmCipher).incIV
-//@ props C26
+//@ props C25 C26
 //@ requires len(c.iv) == 12
 //@ modifies c.iv[4:12]
 //@ loop 1 invariant 3 <= i && i <= 11 && sameoutside(c.iv[4:12])
 
 //@ func (*gcmCipher).readCipherPacket
-//@ props C26
+//@ props C25 C26
 //@ requires c.aead != nil && spec.aeadoh(c.aead) == 16 && len(c.iv) == 12
 //@ modifies heap
 //@ ensures implies(result1 == nil, 1 <= len(result0) && len(result0) <= 262139)
@@ -338,7 +341,7 @@ package ssh
 // block, no declared length makes the reader index out of range, a payload is
 // only returned after the MAC over sequence number || packet compared equal.
 //@ func (*cbcCipher).readCipherPacketLeaky
-//@ props C26
+//@ props C25 C26
 //@ reindex
 //@ requires c.decrypter != nil && (spec.bsize(c.decrypter) == 8 || spec.bsize(c.decrypter) == 16)
 //@ requires cap(c.packetData) >= 16 && c.macSize <= 1024
@@ -349,13 +352,15 @@ package ssh
 //@ check_at "c.macResult = c.mac.Sum(c.macResult[:0])" ghost(c.mac, hlen) == 4 + 4 + length
 //@ check_at "c.macResult = c.mac.Sum(c.macResult[:0])" ghost(c.mac, hbuf)[0] == seqNum / 16777216 && ghost(c.mac, hbuf)[1] == (seqNum / 65536) % 256 && ghost(c.mac, hbuf)[2] == (seqNum / 256) % 256 && ghost(c.mac, hbuf)[3] == seqNum % 256
 //@ check_at "return c.packetData[prefixLen:paddingStart], nil" implies(c.mac != nil, len(mac) == len(c.macResult) && forall(i, 0, len(mac), c.macResult[i] == mac[i]))
+//@ mark RECV "remainingCrypted := c.packetData[firstBlockLength:macStart]"
+//@ check_at "return c.packetData[prefixLen:paddingStart], nil" implies(c.mac != nil, forall(i, 0, len(mac), mac[i] == at(RECV, c.packetData[macStart + i])))
 //@ canary ensures result1 != nil
 
 // chacha20-poly1305@openssh.com packets: the ChaCha20 instances never run past
 // their 2^32-block limit (they are created per packet), no declared length makes
 // the reader index out of range, empty packets and misfitting padding are refused.
 //@ func (*chacha20Poly1305Cipher).readCipherPacket
-//@ props C26
+//@ props C25 C26
 // c.buf is an array of its own (newChaCha20Cipher and this function allocate it with make)
 //@ requires cap(c.buf) >= 4 && ref(c.buf) >= 0
 //@ modifies heap
@@ -430,3 +435,19 @@ package ssh
 //@ check_at "bufferSize := encLength + c.macSize" paddingLength >= 4 && paddingLength <= 255 && encLength == 5 + len(packet) + paddingLength && encLength % effectiveBlockSize == 0 && encLength >= 16
 //@ check_at "c.packetData = c.mac.Sum(c.packetData)" ghost(c.mac, hlen) == 4 + encLength
 //@ canary ensures result != nil
+
+// hmac-sha1-96: a hash.Hash that truncates the HMAC; it must itself behave as the
+// hash.Hash contract says (Sum appends exactly Size() bytes after the given prefix)
+//@ func (truncatingMAC).Sum
+//@ props C25 C26
+//@ requires t.hmac != nil && 0 <= t.length && t.length <= spec.hsize(t.hmac)
+//@ modifies in[len(in):len(in)+spec.hsize(t.hmac)]
+//@ ensures len(result) == len(in) + t.length
+//@ ensures forall(i, 0, len(in), result[i] == old(in[i]))
+//@ ensures (sameobj(result, in) && off(result) == off(in)) || newobj(result)
+//@ canary ensures len(result) == t.length
+
+//@ func (truncatingMAC).Size
+//@ props C25 C26
+//@ pure
+//@ ensures result == t.length
